@@ -17,12 +17,22 @@ Cases: exhaustive index compositions x value alphabet {NaN,-1.5,-3,0,2} x operat
 trailing, whole groups, everywhere; maxnan chosen around the NaN count of a group and beyond the length);
 a separate malformed stream with an index decrease at a chosen position; month-start series of 2..300 months
 from any month of years 1896..2104 (century and leap years included) with non-negative values.
+Glue stream (correspondence only - outside the property's quantifier, never a finding): length mismatch, operator /
+maxnan beyond int32 (OverflowError), int64 index values beyond int32 (wrap), empty input, default arguments,
+int / float32 input dtypes, `compute_aggindex` for AS / AS-MMM / MS / D / h and rejected time steps on random time
+stamps (then fed to aggregate), monthly2daily with missing months in the cubic branch, a threshold, one-month series,
+default and rejected interpolation names.
+History stream: 2-4 step histories on ONE set of arrays / ONE Series - call, then (edit the returned array in place |
+edit an input value / the index in place, equal size | other operator, maxnan, function | pickle / deepcopy round
+trip), call again - every answer compared with the model and the oracle on the caller's current state.
 A case is non-trivial when the call is accepted and returns at least one non-NaN value.
 """
 import calendar
+import copy
 import ctypes
 import itertools
 import math
+import pickle
 import re
 from fractions import Fraction
 
@@ -50,6 +60,8 @@ class ErrResolver:
         if not (2 <= ln <= len(self.lines)):
             return f"other:{ierr}"
         guard = " ".join(self.lines[max(0, ln - 3):ln])
+        if "nval < 1" in guard or "nval<1" in guard or "nval <= 0" in guard:
+            return "emptyInput"
         if "iaprev" in guard:
             return "decreasingIndex"
         if "count" in guard:
@@ -250,7 +262,23 @@ class Real:
 
     def _pyerr(self, e):
         m = re.search(r"returns (\d+)", str(e))
-        return "err " + (self.err.name(int(m.group(1))) if m else "other:" + str(e)[:60])
+        if m:
+            return "err " + self.err.name(int(m.group(1)))
+        if "same length" in str(e) or "Expected inputs of length" in str(e):
+            return "err lengthMismatch"
+        return "err other:" + str(e)[:60]
+
+    def raw(self, fn, *args, **kw):
+        """a wrapper called on the caller's own objects: (reply, list | None)"""
+        try:
+            out = getattr(self.dutils, fn)(*args, **kw)
+            return "ok " + C.flist(out), [float(v) for v in out]
+        except OverflowError:
+            return "err intOverflow", None
+        except ValueError as e:
+            return self._pyerr(e), None
+        except Exception as e:  # noqa
+            return f"raised {type(e).__name__}", None
 
     def _layout(self, idx, vals, salt):
         """the same index / values in one of several memory layouts (the property holds for any float64 input):
@@ -401,18 +429,20 @@ def oracle_aggregate(ctx, real, idx, vals, op, maxnan, out, minimise=True):
     return bad
 
 
-def oracle_flathomogen(ctx, real, idx, vals, maxnan, out):
+def oracle_flathomogen(ctx, real, idx, vals, maxnan, out, minimise=True):
     case = {"fn": "flathomogen", "aggindex": idx, "inputs": nonan(vals), "maxnan": maxnan}
 
     def mk(i2, v2):
         return {"fn": "flathomogen", "aggindex": i2, "inputs": nonan(v2), "maxnan": maxnan}
     if not nondecreasing(idx):
         if out is not None:
-            case = mk(*shrink_pairs(idx, vals, lambda i2, v2: not nondecreasing(i2) and real.flathomogen(i2, v2, maxnan)[1] is not None))
+            if minimise:
+                case = mk(*shrink_pairs(idx, vals, lambda i2, v2: not nondecreasing(i2) and real.flathomogen(i2, v2, maxnan)[1] is not None))
             ctx.finding("flathomogen/accepts_decreasing_index", "an aggregation index that decreases was not rejected", case)
         return
     if out is None:
-        case = mk(*shrink_pairs(idx, vals, lambda i2, v2: real.flathomogen(i2, v2, maxnan)[1] is None))
+        if minimise:
+            case = mk(*shrink_pairs(idx, vals, lambda i2, v2: real.flathomogen(i2, v2, maxnan)[1] is None))
         ctx.finding("flathomogen/rejects_nondecreasing_index", "a non-decreasing aggregation index was rejected", case)
         return
     if len(out) != len(vals):
@@ -452,7 +482,12 @@ def run_m2d(real, y0, m0, vals, interp, minthr):
     import pandas as pd
     idx = pd.date_range(f"{y0:04d}-{m0:02d}-01", periods=len(vals), freq="MS")
     se = pd.Series(vals, index=idx, dtype=float)
-    sed = real.dutils.monthly2daily(se, interp, minthr) if minthr != 0.0 else real.dutils.monthly2daily(se, interp)
+    if minthr != 0.0:
+        sed = real.dutils.monthly2daily(se, interp, minthr)
+    elif interp == "flat" and len(vals) % 2 == 0:
+        sed = real.dutils.monthly2daily(se)          # defaults: interpolation="flat", minthreshold=0.
+    else:
+        sed = real.dutils.monthly2daily(se, interp)
     days = sed.index
     ym = list(zip(days.year.tolist(), days.month.tolist(), days.day.tolist()))
     return [float(v) for v in sed.values], ym
@@ -666,15 +701,365 @@ def body(ctx):
                 vals.append(rng.randint(0, 9000) / 32.0)
         interp = "flat" if it % 2 == 0 else "cubic"
         minthr = 0.0
-        if interp == "flat" and rng.random() < 0.25:
-            # missing months / a positive threshold: correspondence only (the property has complete series)
+        if rng.random() < 0.25:
+            # missing months / another threshold (both branches): correspondence only (the property has complete series)
             if rng.random() < 0.5:
                 vals = [NAN if rng.random() < 0.2 else v for v in vals]
             else:
-                minthr = rng.choice([0.5, 1.0, 3.0])
+                minthr = rng.choice([0.5, 1.0, 3.0, -2.0])
         m2d_case(ctx, real, add, y0, m0, vals, interp, minthr)
+    # one-month series and rejected interpolation names (correspondence only)
+    for (y0, m0) in specials:
+        for interp in ("flat", "cubic"):
+            m2d_case(ctx, real, add, y0, m0, [float(rng.randint(0, 90))], interp, 0.0)
+    for name in ("linear", "Flat", "CUBIC", "cubic2", "fla"):
+        m2d_case(ctx, real, add, 2001, rng.randint(1, 12), [3.0, 4.0], name, 0.0)
+
+    glue_stream(ctx, real, add)
+    aggindex_stream(ctx, real, add, do_aggregate)
+    history_stream(ctx, real, add)
 
     finish(ctx, reqs, impls, cases, tags, cmpmode)
+
+
+# ----------------------------------------------------------------------------------------------
+# wrapper glue (correspondence only: everything here is outside the property's quantifier)
+def glue_stream(ctx, real, add):
+    np, rng = real.np, ctx.rng
+
+    def cmp(tag, req, impl, case, branch):
+        add(tag, req, impl, case)
+        ctx.count((tag, req), impl.startswith("ok"), "glue/" + branch)
+
+    big = 2 ** 31
+    for it in range(ctx.scale(150, 1500)):
+        n = rng.randint(1, 8)
+        idx, _ = gen_index(rng, n)
+        vals, bounds, _ = gen_values(rng, idx)
+        op, maxnan = rng.randint(0, 3), gen_maxnan(rng, vals, bounds)
+        kind = rng.choice(["mismatch", "op_overflow", "maxnan_overflow", "wrap", "empty", "defaults", "dtype", "keywords"])
+        x = np.array(vals, dtype=np.float64)
+        a = np.array(idx, dtype=np.int64)
+        if kind == "mismatch":
+            m = rng.choice([0, n - 1, n + 1, n + 3])
+            a2 = np.arange(m, dtype=np.int64)
+            case = {"aggindex": list(range(m)), "inputs": C.flist(vals)}
+            cmp("aggregate(glue)", f"aggw {op} {maxnan} {C.ilist(range(m))} {C.flist(vals)}", real.raw("aggregate", a2, x, op, maxnan)[0], case, kind)
+            cmp("flathomogen(glue)", f"homogw {maxnan} {C.ilist(range(m))} {C.flist(vals)}", real.raw("flathomogen", a2, x, maxnan)[0], case, kind)
+        elif kind in ("op_overflow", "maxnan_overflow"):
+            v = rng.choice([big, -big - 1, big + 5, 2 ** 40, big - 1, -big])
+            o2, m2 = (v, maxnan) if kind == "op_overflow" else (op, v)
+            case = {"aggindex": idx, "inputs": C.flist(vals), "operator": o2, "maxnan": m2}
+            cmp("aggregate(glue)", f"aggw {o2} {m2} {C.ilist(idx)} {C.flist(vals)}", real.raw("aggregate", a, x, o2, m2)[0], case, kind)
+            if kind == "maxnan_overflow":
+                cmp("flathomogen(glue)", f"homogw {m2} {C.ilist(idx)} {C.flist(vals)}", real.raw("flathomogen", a, x, m2)[0], case, kind)
+        elif kind == "wrap":
+            # int64 index values beyond int32: `astype(np.int32)` wraps modulo 2**32
+            shift = rng.choice([2 ** 32, -2 ** 32, 2 ** 31, 2 ** 33 + 7, 3 * 2 ** 31])
+            cut = rng.randint(0, n)
+            wide = [i + (shift if j >= cut else 0) for j, i in enumerate(idx)]
+            aw = np.array(wide, dtype=np.int64)
+            case = {"aggindex": wide, "inputs": C.flist(vals), "operator": op, "maxnan": maxnan}
+            cmp("aggregate(glue)", f"aggw {op} {maxnan} {C.ilist(wide)} {C.flist(vals)}", real.raw("aggregate", aw, x, op, maxnan)[0], case, kind)
+            cmp("flathomogen(glue)", f"homogw {maxnan} {C.ilist(wide)} {C.flist(vals)}", real.raw("flathomogen", aw, x, maxnan)[0], case, kind)
+        elif kind == "empty":
+            e_a, e_x = np.array([], dtype=np.int64), np.array([], dtype=np.float64)
+            cmp("aggregate(glue)", f"aggw {op} {maxnan} [] []", real.raw("aggregate", e_a, e_x, op, maxnan)[0], {"aggindex": [], "inputs": "[]"}, kind)
+            cmp("flathomogen(glue)", f"homogw {maxnan} [] []", real.raw("flathomogen", e_a, e_x, maxnan)[0], {"aggindex": [], "inputs": "[]"}, kind)
+        elif kind == "defaults":
+            case = {"aggindex": idx, "inputs": C.flist(vals), "call": "defaults"}
+            cmp("aggregate(glue)", f"aggw 0 0 {C.ilist(idx)} {C.flist(vals)}", real.raw("aggregate", a, x)[0], case, kind)
+            cmp("aggregate(glue)", f"aggw {op} 0 {C.ilist(idx)} {C.flist(vals)}", real.raw("aggregate", a, x, op)[0], case, kind)
+            cmp("flathomogen(glue)", f"homogw 0 {C.ilist(idx)} {C.flist(vals)}", real.raw("flathomogen", a, x)[0], case, kind)
+        elif kind == "keywords":
+            case = {"aggindex": idx, "inputs": C.flist(vals), "call": "keywords"}
+            cmp("aggregate(glue)", f"aggw {op} {maxnan} {C.ilist(idx)} {C.flist(vals)}",
+                real.raw("aggregate", inputs=x, aggindex=list(idx), maxnan=maxnan, operator=op)[0], case, kind)
+            cmp("flathomogen(glue)", f"homogw {maxnan} {C.ilist(idx)} {C.flist(vals)}",
+                real.raw("flathomogen", maxnan=np.int64(maxnan), inputs=x, aggindex=tuple(idx))[0], case, kind)
+        else:
+            # integer / float32 / python-int inputs: `astype(np.float64)` is exact on them
+            ints = [float(rng.randint(-40, 40)) for _ in range(n)]
+            dt = rng.choice([np.int64, np.int32, np.float32, np.int16])
+            xi = np.array(ints).astype(dt)
+            case = {"aggindex": idx, "inputs": C.flist(ints), "dtype": np.dtype(dt).name, "operator": op, "maxnan": maxnan}
+            cmp("aggregate(glue)", f"aggw {op} {maxnan} {C.ilist(idx)} {C.flist(ints)}", real.raw("aggregate", a.astype(np.int16 if max(map(abs, idx)) < 30000 else np.int64), xi, op, maxnan)[0], case, kind)
+            cmp("flathomogen(glue)", f"homogw {maxnan} {C.ilist(idx)} {C.flist(ints)}", real.raw("flathomogen", a, xi, maxnan)[0], case, kind)
+
+
+# ----------------------------------------------------------------------------------------------
+# compute_aggindex: the index built from time stamps, then fed to aggregate
+TIMESTEPS = ["AS", "MS", "D", "h"] + ["AS-" + m.upper() for m in calendar.month_abbr[1:]]
+BAD_TIMESTEPS = ["W", "M", "H", "d", "ASJAN", "AS-jan", "AS-", "AS-JANUARY", "as", "YS", "MS-JAN", "AS-AS-MAR", "AAS-JUL"]
+
+
+def gen_stamps(rng, n):
+    import datetime
+    mode = rng.choice(["hours", "days", "months", "mixed", "yearend"])
+    y = rng.choice([1899, 1900, 1999, 2000, 2019, 2023, 2024, 2099, 2100, rng.randint(1700, 2140)])
+    t = datetime.datetime(y, rng.randint(1, 12), rng.randint(1, 28), rng.randint(0, 23))
+    if mode == "yearend":
+        t = datetime.datetime(y, 12, 31, rng.randint(20, 23))
+    out = []
+    for _ in range(n):
+        out.append(t)
+        if mode in ("hours", "yearend"):
+            t += datetime.timedelta(hours=rng.choice([0, 1, 1, 5, 13, 30]))
+        elif mode == "days":
+            t += datetime.timedelta(days=rng.choice([0, 1, 1, 2, 20, 45]), hours=rng.choice([0, 0, 7]))
+        elif mode == "months":
+            t += datetime.timedelta(days=rng.choice([5, 28, 31, 62, 200, 400]))
+        else:
+            t += datetime.timedelta(hours=rng.choice([0, 1, 24, 24 * 31, 24 * 366, 24 * 800]))
+    if rng.random() < 0.15:
+        rng.shuffle(out)            # compute_aggindex itself does not need ordered stamps
+    return out
+
+
+def aggindex_stream(ctx, real, add, do_aggregate):
+    import pandas as pd
+    np, rng = real.np, ctx.rng
+
+    def one(time, stamps, ts, tag="compute_aggindex"):
+        req = (f"aggindex {ts} {C.ilist(t.year for t in stamps)} {C.ilist(t.month for t in stamps)} "
+               f"{C.ilist(t.day for t in stamps)} {C.ilist(t.hour for t in stamps)}")
+        try:
+            got = [int(v) for v in np.asarray(real.dutils.compute_aggindex(time, ts))]
+            impl = "ok " + C.ilist(got)
+        except AssertionError:
+            got, impl = None, "err badTimestep"
+        except Exception as e:  # noqa
+            got, impl = None, f"raised {type(e).__name__}"
+        add(tag, req, impl, {"fn": "compute_aggindex", "timestep": ts, "stamps": [str(t) for t in stamps[:8]]})
+        ctx.count(("aggindex", ts, req), got is not None, "aggindex/" + (ts if got is not None else "rejected"),
+                  sample={"compute_aggindex": {"timestep": ts, "first": str(stamps[0]), "n": len(stamps)}, "reply": impl[:80]})
+        return got
+
+    for it in range(ctx.scale(250, 2500)):
+        n = rng.randint(1, 30)
+        stamps = gen_stamps(rng, n)
+        time = pd.DatetimeIndex(stamps)
+        # a short history on ONE DatetimeIndex: several time steps, one repeated, then an equal-length other index
+        steps = [rng.choice(TIMESTEPS) for _ in range(rng.randint(1, 3))]
+        steps.append(steps[0])
+        if rng.random() < 0.3:
+            steps.insert(rng.randint(0, len(steps)), rng.choice(BAD_TIMESTEPS))
+        got = None
+        for ts in steps:
+            g = one(time, stamps, ts)
+            got = g if g is not None else got
+        stamps2 = gen_stamps(rng, n)
+        one(pd.DatetimeIndex(stamps2), stamps2, steps[0], tag="compute_aggindex(equal length, other stamps)")
+        if n >= 3:
+            # same length, same first and last stamp, other stamps in between (what a cache keyed by shape / ends would miss)
+            lo, hi = min(stamps), max(stamps)
+            span = max(int((hi - lo).total_seconds() // 3600), 1)
+            import datetime
+            stamps3 = [stamps[0]] + [lo + datetime.timedelta(hours=rng.randint(0, span)) for _ in range(n - 2)] + [stamps[-1]]
+            for ts in steps[:2]:
+                if ts in TIMESTEPS:
+                    one(pd.DatetimeIndex(stamps3), stamps3, ts, tag="compute_aggindex(equal length and ends, other stamps)")
+        # end to end: the index the real code built, fed to the real aggregate (oracle applies when it is non-decreasing int32)
+        if got is not None and it % 2 == 0 and all(I32MIN <= g <= I32MAX for g in got):
+            vals, bounds, _ = gen_values(rng, got) if nondecreasing(got) else ([gen_value(rng, "unif") for _ in got], [(0, len(got))], "")
+            do_aggregate(got, vals, rng.randint(0, 3), gen_maxnan(rng, vals, bounds), "from_compute_aggindex")
+
+
+# ----------------------------------------------------------------------------------------------
+# histories on one set of arguments
+class Capture:
+    """collects the findings of a per-call oracle so that they can be re-issued with the history attached"""
+
+    def __init__(self):
+        self.items = []
+
+    def finding(self, signature, what, case):
+        self.items.append((signature, what, case))
+
+
+def history_stream(ctx, real, add):
+    import pandas as pd
+    np, rng = real.np, ctx.rng
+
+    def resync(tag, tracked, actual, hist):
+        """the caller's view vs what the arrays hold now: a callee that edits its arguments is reported as a
+        disagreement (not a C08 finding) and the history continues from the actual content"""
+        same = len(tracked) == len(actual) and all((isnan(p) and isnan(q)) or p == q for p, q in zip(tracked, actual))
+        if not same:
+            ctx.disagree(f"{tag}: an argument was modified by the call", {"history": hist, "caller_view": nonan(tracked)[:20], "now": nonan(actual)[:20]})
+        return list(actual)
+
+    # ---------------- aggregate / flathomogen on ONE pair of arrays
+    for it in range(ctx.scale(600, 6000)):
+        n = rng.randint(1, 10)
+        idx, _ = gen_index(rng, n)
+        vals, bounds, _ = gen_values(rng, idx)
+        a = np.array(idx, dtype=rng.choice([np.int32, np.int64]))
+        x = np.array(vals, dtype=np.float64)           # contiguous float64: what a dropped copy would alias
+        op, maxnan = rng.randint(0, 3), gen_maxnan(rng, vals, bounds)
+        fn = rng.choice(["aggregate", "aggregate", "flathomogen"])
+        hist, last, kept = [], None, []
+        nsteps = rng.randint(2, 4)
+        for step in range(nsteps):
+            if step > 0:
+                act = rng.choice(["edit_out", "edit_out", "edit_x", "edit_x", "edit_a", "other_args", "other_fn", "roundtrip"])
+                if act == "edit_out" and last is not None and len(last) > 0:
+                    last[...] = rng.choice([-777.0, 0.0, NAN])          # the caller scribbles over the returned array
+                    kept = [(arr, snap) for (arr, snap) in kept if arr is not last]
+                elif act == "edit_x":
+                    for _ in range(rng.randint(1, max(1, n // 2))):
+                        j = rng.randrange(n)
+                        vals[j] = rng.choice([NAN, gen_value(rng, "int"), gen_value(rng, "neg"), gen_value(rng, "unif")])
+                        x[j] = vals[j]
+                elif act == "edit_a":
+                    k = rng.choice(["shift", "regroup", "dip"])
+                    if k == "shift":
+                        d = rng.randint(-5, 5)
+                        idx = [min(max(i + d, I32MIN), I32MAX) for i in idx]
+                    elif k == "regroup":
+                        idx2, _ = gen_index(rng, n)
+                        idx = idx2
+                    elif n >= 2:
+                        j = rng.randint(1, n - 1)
+                        idx = list(idx)
+                        if idx[j - 1] > I32MIN:
+                            idx[j] = idx[j - 1] - 1             # now decreasing: must be rejected
+                    a[:] = idx
+                elif act == "other_args":
+                    op, maxnan = rng.randint(0, 3), rng.randint(0, n + 1)
+                elif act == "other_fn":
+                    fn = "flathomogen" if fn == "aggregate" else "aggregate"
+                elif act == "roundtrip":
+                    a, x = pickle.loads(pickle.dumps(a)), copy.deepcopy(x)
+                hist.append(act)
+            idx = [int(v) for v in idx]
+            if fn == "aggregate":
+                impl, outl = real.raw("aggregate", a, x, op, maxnan)
+                req = f"agg {op} {maxnan} {C.ilist(idx)} {C.flist(vals)}"
+            else:
+                impl, outl = real.raw("flathomogen", a, x, maxnan)
+                req = f"homog {maxnan} {C.ilist(idx)} {C.flist(vals)}"
+            hist.append(f"{fn}(op={op},maxnan={maxnan})" if fn == "aggregate" else f"flathomogen(maxnan={maxnan})")
+            case = {"fn": fn, "history": list(hist), "aggindex": idx, "inputs": C.flist(vals), "operator": op, "maxnan": maxnan}
+            add(f"history/{fn}", req, impl, case)
+            ctx.count(("hist", it, step, req), outl is not None, f"history/{fn}/step{step}")
+            # keep the real returned array so that the next step can edit it in place
+            try:
+                last = getattr(real.dutils, fn)(a, x, op, maxnan) if fn == "aggregate" else real.dutils.flathomogen(a, x, maxnan)
+                same = outl is not None and len(last) == len(outl) and all((isnan(p) and isnan(q)) or p == q for p, q in zip(last, outl))
+                if not same:
+                    ctx.finding(f"history/{fn}/not_repeatable", "two identical consecutive calls on the same arguments return different results",
+                                dict(case, first=nonan(outl or []), second=nonan([float(v) for v in last])))
+            except Exception:  # noqa
+                last = None
+                if outl is not None:
+                    ctx.finding(f"history/{fn}/not_repeatable", "the same call succeeds then raises", case)
+            # results handed out earlier belong to the caller: a later call must not change them
+            for (arr, snap) in kept:
+                now = [float(v) for v in arr]
+                if len(now) != len(snap) or any(not ((isnan(p) and isnan(q)) or p == q) for p, q in zip(snap, now)):
+                    ctx.finding(f"history/{fn}/earlier_result_changed", "an array returned by an earlier call was changed by a later call",
+                                dict(case, earlier=nonan(snap), now=nonan(now)))
+                    kept = []
+                    break
+            if last is not None:
+                kept.append((last, [float(v) for v in last]))
+            if in_quantifier(idx, vals, op, maxnan):
+                cap = Capture()
+                if fn == "aggregate":
+                    oracle_aggregate(cap, real, idx, vals, op, maxnan, outl, minimise=False)
+                else:
+                    oracle_flathomogen(cap, real, idx, vals, maxnan, outl, minimise=False)
+                for (sig, what, c) in cap.items:
+                    ctx.finding("history/" + sig, what + " (after a history on the same arguments)", dict(c, history=list(hist)))
+            vals = resync(f"history/{fn}", vals, [float(v) for v in x], hist)
+            idx = [int(v) for v in resync(f"history/{fn}", [float(v) for v in idx], [float(v) for v in a], hist)]
+
+    # ---------------- goue on one pair of arrays
+    for it in range(ctx.scale(60, 600)):
+        n = rng.randint(3, 20)
+        idx, _ = gen_index(rng, n)
+        vals = [gen_value(rng, rng.choice(["pos", "dyadic", "unif"])) for _ in range(n)]
+        a, x = np.array(idx), np.array(vals)
+        for step in range(3):
+            if step > 0:
+                j = rng.randrange(n)
+                vals[j] = gen_value(rng, "pos") + 1.0
+                x[j] = vals[j]
+            if len(set(vals)) < 2:
+                continue
+            try:
+                g = float(real.signatures.goue(a, x))
+            except Exception as e:  # noqa
+                ctx.finding("history/goue/raises", "goue raises on a non-decreasing aggregation index",
+                            {"fn": "goue", "aggindex": idx, "values": list(vals), "step": step, "error": f"{type(e).__name__}: {str(e)[:80]}"})
+                break
+            means = {}
+            for (p, q) in runs_of(idx):
+                m = fsum_exact(vals[p:q]) / (q - p)
+                for i in range(p, q):
+                    means[i] = m
+            mo = fsum_exact(vals) / n
+            den = sum((Fraction(v) - mo) ** 2 for v in vals)
+            num = sum((Fraction(v) - means[i]) ** 2 for i, v in enumerate(vals))
+            want = float(1 - num / den)
+            ctx.count(("hist-goue", it, step), True, "history/goue")
+            if not C.close(g, want, rel=1e-9, abs_=1e-9):
+                ctx.finding("history/goue/not_nse_of_flathomogen", "goue differs from the Nash-Sutcliffe efficiency of the group-mean series after an in-place edit of its argument",
+                            {"fn": "goue", "aggindex": idx, "values": list(vals), "step": step, "got": g, "expected": want})
+            vals = resync("history/goue", vals, [float(v) for v in x], ["goue"] * (step + 1))
+
+    # ---------------- monthly2daily on ONE Series
+    for it in range(ctx.scale(120, 1200)):
+        y0, m0, k = rng.randint(1896, 2104), rng.randint(1, 12), rng.randint(2, 8)
+        vals = [rng.choice([float(rng.randint(0, 200)), rng.uniform(0, 100), 0.0]) for _ in range(k)]
+        se = pd.Series(list(vals), index=pd.date_range(f"{y0:04d}-{m0:02d}-01", periods=k, freq="MS"), dtype=float)
+        interp = rng.choice(["flat", "cubic"])
+        hist, sed = [], None
+        for step in range(rng.randint(2, 4)):
+            if step > 0:
+                act = rng.choice(["edit_out", "edit_in", "edit_in", "other_interp", "roundtrip"])
+                if act == "edit_out" and sed is not None:
+                    sed.iloc[:] = -5.0
+                elif act == "edit_in":
+                    j = rng.randrange(k)
+                    vals[j] = rng.choice([0.0, float(rng.randint(0, 300)), rng.uniform(0, 50)])
+                    se.iloc[j] = vals[j]
+                elif act == "other_interp":
+                    interp = "cubic" if interp == "flat" else "flat"
+                elif act == "roundtrip":
+                    se = pickle.loads(pickle.dumps(se)) if rng.random() < 0.5 else copy.deepcopy(se)
+                hist.append(act)
+            hist.append(f"monthly2daily({interp})")
+            case = {"fn": "monthly2daily", "history": list(hist), "year": y0, "month": m0, "values": list(vals), "interpolation": interp}
+            try:
+                sed = real.dutils.monthly2daily(se, interp)
+                out = [float(v) for v in sed.values]
+                days = sed.index
+                ymd = list(zip(days.year.tolist(), days.month.tolist(), days.day.tolist()))
+            except Exception as e:  # noqa
+                add(f"history/monthly2daily({interp})", f"m2d {interp} {y0} {m0} {C.f2h(0.0)} {C.flist(vals)}", f"raised {type(e).__name__}", case)
+                ctx.finding(f"history/monthly2daily/{interp}/raises", "monthly2daily raises on a complete non-negative month-start series after a history on the same Series",
+                            dict(case, error=f"{type(e).__name__}: {str(e)[:80]}"))
+                break
+            counts, lastm = [], None
+            for (yy, mm, dd) in ymd:
+                if (yy, mm) != lastm:
+                    counts.append(0)
+                    lastm = (yy, mm)
+                counts[-1] += 1
+            add(f"history/monthly2daily({interp})", f"m2d {interp} {y0} {m0} {C.f2h(0.0)} {C.flist(vals)}",
+                "ok " + C.ilist(counts) + " " + C.flist(out), case,
+                mode="exact" if interp == "flat" else ("cubic", max([abs(v) for v in vals] + [1.0])))
+            ctx.count(("hist-m2d", it, step), True, f"history/m2d/{interp}/step{step}")
+            v = m2d_violation(y0, m0, vals, out, ymd)
+            if v is not None:
+                ctx.finding(f"history/monthly2daily/{interp}/{v[0]}", "monthly2daily violates the calendar-day / monthly-sum clause after a history on the same Series",
+                            dict(case, **v[2]))
+            cur = [float(q) for q in se.values]
+            if len(cur) != len(vals) or any(not ((isnan(p) and isnan(q)) or p == q) for p, q in zip(vals, cur)):
+                ctx.disagree("history/monthly2daily: the caller's Series was modified by the call", {"history": hist, "caller_view": vals, "now": nonan(cur)[:20]})
+                break
 
 
 def m2d_case(ctx, real, add, y0, m0, vals, interp, minthr):
@@ -683,7 +1068,9 @@ def m2d_case(ctx, real, add, y0, m0, vals, interp, minthr):
     try:
         out, ymd = run_m2d(real, y0, m0, vals, interp, minthr)
     except Exception as e:  # noqa
-        add(f"monthly2daily({interp})", "m2dflat 0 0 0000000000000000 []", f"raised {type(e).__name__}: {str(e)[:80]}", case)
+        kind = "err badInterpolation" if isinstance(e, ValueError) and "interpolation" in str(e) else \
+            f"raised {type(e).__name__}: {str(e)[:80]}"
+        add(f"monthly2daily({interp})", f"m2d {interp} {y0} {m0} {C.f2h(minthr)} {C.flist(vals)}", kind, case)
         ctx.count(("m2d", y0, m0, C.flist(vals), interp, minthr), False, f"m2d/{interp}/raised")
         return
     # days attributed to each month, in order of appearance
@@ -693,12 +1080,12 @@ def m2d_case(ctx, real, add, y0, m0, vals, interp, minthr):
             counts.append(0)
             last = (y, m)
         counts[-1] += 1
+    req = f"m2d {interp} {y0} {m0} {C.f2h(minthr)} {C.flist(vals)}"
     if interp == "flat":
-        add("monthly2daily(flat)", f"m2dflat {y0} {m0} {C.f2h(minthr)} {C.flist(vals)}",
-            "ok " + C.ilist(counts) + " " + C.flist(out), case)
+        add("monthly2daily(flat)", req, "ok " + C.ilist(counts) + " " + C.flist(out), case)
     else:
-        add("monthly2daily(cubic)", f"m2dcubic {y0} {m0} {C.flist(vals)}",
-            "ok " + C.ilist(counts) + " " + C.flist(out), case, mode=("cubic", max(abs(v) for v in vals)))
+        scale = max([abs(v) for v in vals if not isnan(v)] + [abs(minthr) + 1.0])
+        add("monthly2daily(cubic)", req, "ok " + C.ilist(counts) + " " + C.flist(out), case, mode=("cubic", scale))
     complete = all(not isnan(v) and v >= 0 for v in vals) and minthr == 0.0 and len(vals) >= 2
     ctx.count(("m2d", y0, m0, C.flist(vals), interp, minthr), any(not isnan(o) for o in out), f"m2d/{interp}/k={min(len(vals) // 50 * 50, 300)}+",
               sample={"monthly2daily": {"start": [y0, m0], "months": len(vals), "interpolation": interp}, "days": len(out)})
